@@ -30,8 +30,8 @@ def bounded(tier, seed):
 
 MANIFEST = dict(
     category="other",
-    text="Contract-based proof of the path decoder (real get_solution_paths, 4 nested loops cut at invariants) + bounded runtime contract 'is a route of the caller's graph' on all model classes.",
+    text="Contract-based proofs on the real source: the route ENCODERS (_encode_paths, _encode_walks: sound-and-complete row contracts for every assignment of the columns), the source/sink augmentation, the path decoder get_solution_paths (4 nested loops cut at invariants) + bounded runtime contract 'is a route of the caller's graph' on all model classes + SymMILP decoder precondition per layer.",
     design_ref="DESIGN.md section 3 / C01",
-    note="The encoder side (rows imply the decoder's precondition) is not under unbounded contract; walk decoder: see C14. Trusted: HiGHS, networkx.",
-    technique="contract-based deductive verification of the decoder (PyVC) + bounded runtime-contract check of route validity",
+    note='Graph lemma `unit flow of 0/1 indicators on a DAG = one path` links encoder and decoder and is not proved; walk reconstruction: see C14. Trusted: HiGHS, networkx.',
+    technique='contract-based deductive verification of encoders and decoder (PyVC) + bounded runtime-contract check of route validity',
     engine="pyvc+rc")
